@@ -66,6 +66,10 @@ class C02(SessionCheck):
             # fresh dispatcher and hands the growing schedule to the plot function); recorded BEFORE the reset
             if hist:     # (an empty history is rejected by create_gantt_chart_frames: nothing to replay)
                 replays.append(self.replay_through_frames(inst, hist))
+                # the same (operation, machine) sequence carried by entries with LATER start times (taken from a
+                # schedule that is not left-shifted): the replay depends on the sequence only
+                replays.append(self.replay_through_frames(inst, [[j, p, st + 3 + k, m]
+                                                                 for k, (j, p, st, m) in enumerate(hist)]))
         return {"outs": outs, "hist": hist, "replays": common.norm(replays), "final": common.norm(final_rows)}
 
     @staticmethod
@@ -178,7 +182,9 @@ class C02(SessionCheck):
         # replay
         if obs["hist"] is not None:
             for which, rep in zip(("fresh", "reset", "same (reset, recorded list object)",
-                                   "fresh (inside create_gantt_chart_frames)"), obs["replays"]):
+                                   "fresh (inside create_gantt_chart_frames)",
+                                   "fresh (inside create_gantt_chart_frames, entries carrying later start times)"),
+                                  obs["replays"]):
                 if rep[3] != obs["final"]:
                     fails.append(Failure("oracle", "replay-" + which,
                                          f"re-dispatching the recorded history on a {which} dispatcher does not "
